@@ -12,7 +12,8 @@ CONSTANTS MaxSizeCfg,   \* real configuration, read by the check from the tree u
           IdPairs,      \* subset of DOMAIN IdPairTable
           Types,
           WithFill,     \* BOOLEAN: also the largest count the estimator still lets in, and that count + 1
-          WithMaxTx     \* BOOLEAN: also one miniblock with MaxTransactionsInOneMiniblock() (and + 1) hashes
+          WithMaxTx,    \* BOOLEAN: also one miniblock with MaxTransactionsInOneMiniblock() (and + 1) hashes
+          WithConc      \* BOOLEAN: also concurrent accounting (Accumulate by 2..3 goroutines) followed by Ask
 
 LogAppend(h, r) == Append(h, r)
 LogLast(h, r) == <<r>>
@@ -39,7 +40,15 @@ GridAdd ==
             /\ (ntx > 1000 => count <= 60)          \* huge miniblocks only in small numbers (volume)
             /\ Add(thr, count, ntx, IdPairTable[ip][1], IdPairTable[ip][2], type, 0)
 
-MCNext == steps < Depth /\ GridAdd
+\* concurrent accounting: groups of calibrated-shape miniblocks whose total sits around the limits, then the question
+ConcGroups == {<<[count |-> c, ntx |-> t], [count |-> c, ntx |-> t]>> : c \in {1, 13, 14, 15}, t \in {0, 1, 1000}}
+                \cup {<<[count |-> 9, ntx |-> 1000], [count |-> 9, ntx |-> 1000], [count |-> c, ntx |-> 1000]>> : c \in {8, 9, 10, 11}}
+GridConc ==
+    WithConc /\ (\/ (pend = 0 /\ \E gs \in ConcGroups, ip \in IdPairs :
+                          Accumulate(gs, IdPairTable[ip][1], IdPairTable[ip][2], 0))
+                  \/ (pend > 0 /\ \E thr \in BOOLEAN : Ask(thr)))
+
+MCNext == steps < Depth /\ (GridAdd \/ GridConc)
 MCSpec == Init /\ [][MCNext]_vars
 
 EmitEdge == PrintT("@@B " \o ToJson(hist'))
